@@ -1204,7 +1204,11 @@ func c07FromDomainALabels(c *Check, rule string) {
 		c.SawFunc(fi.Name())
 		f := p.SSAFunc(fi.Obj)
 		n, msg := 0, ""
+		var cone []*ssa.Function
 		if f != nil {
+			cone = p.ssaCone(f)
+		}
+		for _, f := range cone {
 			for _, b := range f.Blocks {
 				for _, ins := range b.Instrs {
 					call, ok := ins.(*ssa.Call)
@@ -1224,6 +1228,9 @@ func c07FromDomainALabels(c *Check, rule string) {
 				}
 			}
 		}
+		if n == 0 && msg == "" {
+			msg = "undecided: no LookupTXT query found in FetchRecord (or in the helpers it was split into)"
+		}
 		c.Hold(rule, "FetchRecord:names-stay-a-labels", fi.Decl.Pos(), msg == "" && n > 0, msg)
 	}
 	// … nor on the way from ExtractFromDomain to FetchRecord
@@ -1234,8 +1241,7 @@ func c07FromDomainALabels(c *Check, rule string) {
 		msg, n := "", 0
 		var fns []*ssa.Function
 		if f := p.SSAFunc(fi.Obj); f != nil {
-			fns = append(fns, f)
-			fns = append(fns, f.AnonFuncs...)
+			fns = p.ssaCone(f)
 		}
 		for _, f := range fns {
 			for _, b := range f.Blocks {
@@ -1254,6 +1260,9 @@ func c07FromDomainALabels(c *Check, rule string) {
 					}
 				}
 			}
+		}
+		if n == 0 && msg == "" {
+			msg = "undecided: no call of FetchRecord found in Verifier.FetchRecord (or in the helpers it was split into)"
 		}
 		c.Hold(rule, "Verifier.FetchRecord:domain-stays-a-label", fi.Decl.Pos(), msg == "" && n > 0, msg)
 	}
